@@ -50,14 +50,29 @@ func vLineEdit(edit func(typ, payload string, nth int) (string, bool)) func(l *v
 			return data
 		}
 		var out []byte
-		out = append(out, m[0]...)
-		out = append(out, np...)
+		if strings.HasPrefix(np, vWholeLine) {
+			// the marker and type are replaced as well
+			out = append(out, np[len(vWholeLine):]...)
+		} else {
+			out = append(out, m[0]...)
+			out = append(out, np...)
+		}
 		if win {
 			out = append(out, '!')
 		}
 		out = append(out, data[nl:]...)
 		return out
 	}
+}
+
+// vWholeLine in front of an edit's result: the result replaces the line's marker and type too.
+const vWholeLine = "\x00whole-line\x00"
+
+// vHostileLineShape is a line that lost or garbled its framing: no '#', no type, no colon, colon first, marker only.
+func vHostileLineShape(tp *verifsim.Tape, typ, payload string) string {
+	shapes := []string{":" + typ + ":" + payload, typ + ":" + payload, "#" + typ + payload, "#:" + payload, ":", "#", "", "::", "#" + typ + ":", "#" + typ, ":" + payload,
+		"##" + typ + ":" + payload, "#" + typ + "::" + payload, " #" + typ + ":" + payload, "#" + strings.ToLower(typ) + ":" + payload, payload, "#" + typ + ":" + payload + ":" + payload, ":#" + typ + ":"}
+	return vWholeLine + shapes[tp.Draw("h.shape", len(shapes))]
 }
 
 // ---------------------------------------------------------------------------------------------
@@ -497,56 +512,71 @@ func vScenarioC12(rc *runCtx) {
 			return "", false
 		}
 		var np string
-		switch typ {
-		case "NUM", "SIZE":
-			np = vHostileNumFor(tp, payload)
-		case "SUCC":
-			switch {
-			case strings.Contains(payload, "/"):
-				parts := strings.SplitN(payload, "/", 2)
-				switch tp.Draw("c12.ack", 4) {
-				case 0:
-					np = parts[0] + "/" + vHostileNumFor(tp, parts[1])
-				case 1:
-					np = vHostileNumFor(tp, parts[0]) + "/" + parts[1]
-				case 2:
-					np = parts[0]
-				default:
-					np = parts[0] + "/" + parts[1] + "/7"
-				}
-			case len(payload) > 0 && payload[0] >= '0' && payload[0] <= '9' && len(payload) < 20:
+		shaped := false
+		if tp.Bool("c12.shape", 120) {
+			switch typ {
+			case "NUM", "SIZE", "SUCC", "DATA", "COMP", "ACT", "CFG", "NAME", "HASH", "MD5", "EXIT", "fail", "FAIL":
+				shaped = true
+			}
+		}
+		switch {
+		case shaped:
+			np = vHostileLineShape(tp, typ, payload)
+		default:
+			switch typ {
+			case "NUM", "SIZE":
 				np = vHostileNumFor(tp, payload)
-			default:
+			case "SUCC":
+				switch {
+				case strings.Contains(payload, "/"):
+					parts := strings.SplitN(payload, "/", 2)
+					switch tp.Draw("c12.ack", 4) {
+					case 0:
+						np = parts[0] + "/" + vHostileNumFor(tp, parts[1])
+					case 1:
+						np = vHostileNumFor(tp, parts[0]) + "/" + parts[1]
+					case 2:
+						np = parts[0]
+					default:
+						np = parts[0] + "/" + parts[1] + "/7"
+					}
+				case len(payload) > 0 && payload[0] >= '0' && payload[0] <= '9' && len(payload) < 20:
+					np = vHostileNumFor(tp, payload)
+				default:
+					np = vHostileEncoded(tp, payload)
+				}
+			case "DATA":
+				if len(payload) < 20 && len(payload) > 0 && payload[0] >= '0' && payload[0] <= '9' {
+					np = vHostileNumFor(tp, payload) // binary mode size line
+				} else {
+					np = vHostileEncoded(tp, payload)
+				}
+			case "COMP":
+				np = []string{"maybe", "", "TRUE", "1"}[tp.Draw("c12.comp", 4)]
+			case "ACT", "CFG", "NAME", "HASH", "MD5", "EXIT", "fail", "FAIL":
 				np = vHostileEncoded(tp, payload)
-			}
-		case "DATA":
-			if len(payload) < 20 && len(payload) > 0 && payload[0] >= '0' && payload[0] <= '9' {
-				np = vHostileNumFor(tp, payload) // binary mode size line
-			} else {
-				np = vHostileEncoded(tp, payload)
-			}
-		case "COMP":
-			np = []string{"maybe", "", "TRUE", "1"}[tp.Draw("c12.comp", 4)]
-		case "ACT", "CFG", "NAME", "HASH", "MD5", "EXIT", "fail", "FAIL":
-			np = vHostileEncoded(tp, payload)
-			if (typ == "CFG" || typ == "ACT" || typ == "NAME") && tp.Bool("c12.known", 400) {
-				// a well-formed record in which only known fields carry boundary values
-				if raw, err := vDecode(payload); err == nil {
-					var m map[string]any
-					if json.Unmarshal(raw, &m) == nil && m != nil {
-						vHostileKnown(tp, m)
-						if js, err := json.Marshal(m); err == nil {
-							np = vEncode(js)
+				if (typ == "CFG" || typ == "ACT" || typ == "NAME") && tp.Bool("c12.known", 400) {
+					// a well-formed record in which only known fields carry boundary values
+					if raw, err := vDecode(payload); err == nil {
+						var m map[string]any
+						if json.Unmarshal(raw, &m) == nil && m != nil {
+							vHostileKnown(tp, m)
+							if js, err := json.Marshal(m); err == nil {
+								np = vEncode(js)
+							}
 						}
 					}
 				}
+			default:
+				return "", false
 			}
-		default:
-			return "", false
 		}
 		fired++
 		rc.fault("hostile-" + typ)
-		log = append(log, fmt.Sprintf("%s#%d %s -> %s", typ, nth, vClip(payload, 24), vClip(np, 40)))
+		if shaped {
+			rc.fault("hostile-line-shape")
+		}
+		log = append(log, fmt.Sprintf("%s#%d %s -> %s", typ, nth, vClip(payload, 24), vClip(strings.TrimPrefix(np, vWholeLine), 40)))
 		return np, true
 	})
 	l.Mangle = func(ll *verifsim.Link, d []byte) []byte {
